@@ -21,6 +21,7 @@ import (
 	"errors"
 	"fmt"
 	"math/rand"
+	"reflect"
 	"sync"
 )
 
@@ -417,8 +418,13 @@ func ExtractRule(ctx *Context, fact Map, required bool) (Map, error) {
 			expires, have := fact["expires"]
 			Log(DEBUG, ctx, "ExtractRule", "expires", expires)
 			if have {
-				// ToDo: Probably shouldn't modify given fact this way.
-				vv["expires"] = expires
+				// The rule body normally carries the expiration
+				// already (setExpires writes it there).  Only
+				// write when it doesn't: callers such as
+				// doFindRules hold just the shared lock.
+				if cur, given := vv["expires"]; !given || !reflect.DeepEqual(cur, expires) {
+					vv["expires"] = expires
+				}
 			}
 			return vv, nil
 		default:
